@@ -12,8 +12,9 @@ namespace Mqtt.Spec.Lifecycle
 def causes : List String := ["disconnect", "close", "protoerr", "oversize", "keepalive", "srvclose"]
 
 /-- buffer conditions the scenarios know (`chunked`: a packet that needs the last read block of the
-ring arrives in pieces and is never completed; `chunkwhole`: it is completed and processed) -/
-def conds : List String := ["idle", "outfull", "infull", "selffull", "selfout", "cross", "chunked", "chunkwhole"]
+ring arrives in pieces and is never completed; `chunkwhole`: it is completed and processed; `chunknear`: a
+packet of exactly the ring size arrives up to its last byte) -/
+def conds : List String := ["idle", "outfull", "infull", "selffull", "selfout", "cross", "chunked", "chunkwhole", "chunknear"]
 
 /-- the expected outcome line; `-` marks what cannot be observed while Server.Close is stopping
 the witness too -/
